@@ -26,7 +26,7 @@ KINDS = [("u8", "Ev::U8(kani::any())"), ("u16", "Ev::U16(kani::any())"), ("u32",
          ("f32", "Ev::F32(kani::any())"), ("f64", "Ev::F64(kani::any())"), ("bool", "Ev::Bool(kani::any())"), ("char", "Ev::Char(kani::any())"),
          ("unit", "Ev::Unit"), ("none", "Ev::None"), ("seq", "Ev::Seq2(kani::any(), kani::any(), kani::any::<u8>() % 3)"), ("some", "Ev::SomeOf(kani::any())"),
          ("str", "Ev::Str(\"7\", StrMode::Borrowed)")]
-KINDS128 = [("u128", "Ev::U128(kani::any())"), ("i128", "Ev::I128(kani::any())")]
+KINDS128 = [("u128", "Ev128::U(kani::any())"), ("i128", "Ev128::I(kani::any())")]
 # serde's default visit_i128/visit_u128 (used by every non-128-bit primitive visitor) FORMATS the number into the error
 # message; that is serde's code, explodes under CBMC, and no supported format delivers 128-bit events to smaller targets.
 
@@ -45,7 +45,7 @@ def accepts(ty, kind):
 def kinds_for(ty, tier, rng):
     ks = list(KINDS) + (KINDS128 if ty in ("i128", "u128") else [])
     if tier == "quick":
-        must = [k for k in ks if k[0] in ("u64", "i64", "f64", "i8", "unit", "seq")]
+        must = [k for k in ks if k[0] in ("u64", "i64", "f64", "unit")]
         rest = [k for k in ks if k not in must]
         ks = must + rng.sample(rest, 3)
     return ks
@@ -54,9 +54,9 @@ def kinds_for(ty, tier, rng):
 def top_harness(d, hname, kind, evexpr, sabotage=False):
     ty = d.ty
     b = [d.setup(), "let ev = %s;" % evexpr,
-         "let inner = <%s as Deserialize>::deserialize(StubDe::new(ev));" % ty,
+         "let inner = <%s as Deserialize>::deserialize(%s);" % (ty, "StubDe128 { ev }" if kind in ("u128", "i128") else "StubDe::new(ev)"),
          "unsafe { NEWTYPE_CALLS = 0; }",
-         "let got = <%s as Deserialize>::deserialize(StubDe::new(ev));" % d.name]
+         "let got = <%s as Deserialize>::deserialize(%s);" % (d.name, "StubDe128 { ev }" if kind in ("u128", "i128") else "StubDe::new(ev)")]
     if not sabotage:
         if accepts(ty, kind):
             b.append("kani::cover!(got.is_ok());")
@@ -70,35 +70,39 @@ def top_harness(d, hname, kind, evexpr, sabotage=False):
 
 
 def nested_harnesses(d, base):
+    """every event KIND is concrete per harness (a symbolic kind makes CBMC merge all serde visitor paths: > 150 s); payloads are symbolic"""
     ty = d.ty
     out, hs = [], []
-    num = "Ev::F64(kani::any())" if is_float(ty) else ("Ev::I64(kani::any())" if is_signed(ty) else "Ev::U64(kani::any())")
-    evopt = "if kani::any() { Ev::None } else if kani::any() { Ev::SomeOf(kani::any()) } else { %s }" % num
+    pk = "F64" if is_float(ty) else ("I64" if is_signed(ty) else "U64")
+    num = "Ev::%s(kani::any())" % pk
+    prim = "Prim::%s(kani::any())" % pk
     def chk(x, v):  # compare one element
         if d.has_validation():
             return "{ let s = %s; assert!(%s, \"container holds a value the constructor rejects\"); let g = %s.into_inner(); assert!(%s); }" % (d.san_ref(x), d.valid_expr("s"), v, d.eq("g", "s"))
         return "{ let s = %s; let g = %s.into_inner(); assert!(%s); }" % (d.san_ref(x), v, d.eq("g", "s"))
     def invalid(x):
         return ("{ let s = %s; !(%s) }" % (d.san_ref(x), d.valid_expr("s"))) if d.has_validation() else "false"
-    # Option<N>
-    b = [d.setup(), "let ev = %s;" % evopt,
-         "let inner = <Option<%s> as Deserialize>::deserialize(StubDe::new(ev));" % ty,
-         "let got = <Option<%s> as Deserialize>::deserialize(StubDe::new(ev));" % d.name,
-         "kani::cover!(matches!(got, Ok(None))); kani::cover!(matches!(got, Ok(Some(_)))); kani::cover!(got.is_err());",
-         "match (inner, got) {\n            (Err(_), g) => { assert!(g.is_err()); }\n            (Ok(None), g) => { assert!(matches!(g, Ok(None))); }\n"
-         "            (Ok(Some(x)), Ok(Some(v))) => %s\n            (Ok(Some(x)), Ok(None)) => { assert!(false, \"value lost\"); }\n            (Ok(Some(x)), Err(_)) => { assert!(%s, \"Option<N> failed on an acceptable value\"); }\n        }" % (chk("x", "v"), invalid("x"))]
-    out.append("    #[kani::proof]\n    #[kani::unwind(4)]\n    pub fn %s_option() {\n        %s\n    }\n" % (base, "\n        ".join(b)))
-    hs.append(H(base + "_option", "main", dict(d.describe(), position="Option<N>")))
-    # [N; 2] and (N,)
-    b = [d.setup(), "let ev = Ev::Seq2(kani::any(), kani::any(), kani::any::<u8>() % 3);",
-         "let inner = <[%s; 2] as Deserialize>::deserialize(StubDe::new(ev));" % ty,
-         "let got = <[%s; 2] as Deserialize>::deserialize(StubDe::new(ev));" % d.name,
-         "kani::cover!(got.is_ok()); kani::cover!(got.is_err() && inner.is_ok());" if d.has_validation() else "kani::cover!(got.is_ok());",
-         "match (inner, got) {\n            (Err(_), g) => { assert!(g.is_err()); }\n"
-         "            (Ok([x0, x1]), Ok([v0, v1])) => { %s %s }\n            (Ok([x0, x1]), Err(_)) => { assert!(%s || %s, \"[N;2] failed although both elements are acceptable\"); }\n        }" % (chk("x0", "v0"), chk("x1", "v1"), invalid("x0"), invalid("x1"))]
-    out.append("    #[kani::proof]\n    #[kani::unwind(5)]\n    pub fn %s_array2() {\n        %s\n    }\n" % (base, "\n        ".join(b)))
-    hs.append(H(base + "_array2", "main", dict(d.describe(), position="[N; 2] (sequence element)")))
-    b = [d.setup(), "let ev = Ev::Seq2(kani::any(), kani::any(), kani::any::<u8>() % 3);",
+    # Option<N>: explicit none / explicit some(prim) / bare value (JSON semantics)
+    for tag, ev in (("none", "Ev::None"), ("some", "Ev::SomeOf(%s)" % prim), ("bare", num), ("somebool", "Ev::SomeOf(Prim::Bool(kani::any()))")):
+        b = [d.setup(), "let ev = %s;" % ev,
+             "let inner = <Option<%s> as Deserialize>::deserialize(StubDe::new(ev));" % ty,
+             "let got = <Option<%s> as Deserialize>::deserialize(StubDe::new(ev));" % d.name,
+             {"none": "kani::cover!(matches!(got, Ok(None)));", "somebool": "kani::cover!(got.is_err());"}.get(tag, "kani::cover!(matches!(got, Ok(Some(_))));" + (" kani::cover!(got.is_err() && inner.is_ok());" if d.has_validation() else "")),
+             "match (inner, got) {\n            (Err(_), g) => { assert!(g.is_err()); }\n            (Ok(None), g) => { assert!(matches!(g, Ok(None))); }\n"
+             "            (Ok(Some(x)), Ok(Some(v))) => %s\n            (Ok(Some(x)), Ok(None)) => { assert!(false, \"value lost\"); }\n            (Ok(Some(x)), Err(_)) => { assert!(%s, \"Option<N> failed on an acceptable value\"); }\n        }" % (chk("x", "v"), invalid("x"))]
+        out.append("    #[kani::proof]\n    #[kani::unwind(4)]\n    pub fn %s_option_%s() {\n        %s\n    }\n" % (base, tag, "\n        ".join(b)))
+        hs.append(H("%s_option_%s" % (base, tag), "main", dict(d.describe(), position="Option<N>", event=tag)))
+    # [N; 2] and (N,): sequences of 0..2 primitives
+    for n in (2, 1):
+        b = [d.setup(), "let ev = Ev::Seq2(%s, %s, %d);" % (prim, prim, n),
+             "let inner = <[%s; 2] as Deserialize>::deserialize(StubDe::new(ev));" % ty,
+             "let got = <[%s; 2] as Deserialize>::deserialize(StubDe::new(ev));" % d.name,
+             ("kani::cover!(got.is_ok());" + (" kani::cover!(got.is_err() && inner.is_ok());" if d.has_validation() else "")) if n == 2 else "kani::cover!(inner.is_err());",
+             "match (inner, got) {\n            (Err(_), g) => { assert!(g.is_err()); }\n"
+             "            (Ok([x0, x1]), Ok([v0, v1])) => { %s %s }\n            (Ok([x0, x1]), Err(_)) => { assert!(%s || %s, \"[N;2] failed although both elements are acceptable\"); }\n        }" % (chk("x0", "v0"), chk("x1", "v1"), invalid("x0"), invalid("x1"))]
+        out.append("    #[kani::proof]\n    #[kani::unwind(5)]\n    pub fn %s_array2_len%d() {\n        %s\n    }\n" % (base, n, "\n        ".join(b)))
+        hs.append(H("%s_array2_len%d" % (base, n), "main", dict(d.describe(), position="[N; 2] (sequence element)", delivered=n)))
+    b = [d.setup(), "let ev = Ev::Seq2(%s, %s, 1);" % (prim, prim),
          "let inner = <(%s,) as Deserialize>::deserialize(StubDe::new(ev));" % ty,
          "let got = <(%s,) as Deserialize>::deserialize(StubDe::new(ev));" % d.name,
          "kani::cover!(got.is_ok());",
